@@ -411,6 +411,12 @@ class Arr:
             return res
         if op == "Div":
             return elementwise(ex, lambda a, b: a / b, args, "real", node)
+        if op == "Pow" and not reflected and (isinstance(other, int) or (isinstance(other, z3.ArithRef) and other.is_int())) \
+                and not isinstance(other, bool) and self.kind == "real":
+            from .logic import rpow
+            e = other if isinstance(other, z3.ExprRef) else z3.IntVal(other)
+            f = _freeze(self)
+            return Arr(self.shape, lambda i: rpow(_num(f(i)), e), "real", ex.ctx.const("dt_result", DT))      # array ** integer, element-wise
         return NotImplemented
 
     def sx_inplace(self, ex, op, rhs, node):
@@ -433,6 +439,21 @@ class Arr:
         raise U("truth value of an array")
 
 
+iconcat = z3.Function("iconcat", Idx, Idx, Idx)          # position (i ++ j) of shape s + t
+ileft = z3.Function("ileft", Idx, Shp, Shp, Idx)         # the s-part of a position of s + t
+iright = z3.Function("iright", Idx, Shp, Shp, Idx)       # the t-part
+
+
+def concat_axioms(ctx):
+    s, t = z3.Const(ctx.fresh("s"), Shp), z3.Const(ctx.fresh("t"), Shp)
+    i, j, p = (z3.Const(ctx.fresh(n), Idx) for n in "ijp")
+    return [z3.ForAll([s, t, i, j], inshape(iconcat(i, j), sconcat(s, t)) == z3.And(inshape(i, s), inshape(j, t)),
+                      patterns=[inshape(iconcat(i, j), sconcat(s, t))]),
+            z3.ForAll([s, t, p], z3.Implies(inshape(p, sconcat(s, t)), z3.And(
+                inshape(ileft(p, s, t), s), inshape(iright(p, s, t), t), iconcat(ileft(p, s, t), iright(p, s, t)) == p)),
+                patterns=[inshape(p, sconcat(s, t))])]
+
+
 class OuterProduct:
     """numpy.outer(a, b): the (a.size, b.size) matrix of all products.  Only its reshape to a.shape + b.shape for a
     0-d `b` is modelled: element i is a[i] * b[()]."""
@@ -447,11 +468,14 @@ class OuterProduct:
         if attr == "reshape" and len(args) == 1 and isinstance(args[0], ShapeV) and not kw:
             a, b = self.a, self.b
             site = ex.site("outer_reshape")
-            ex.oblige(f"pre({site}).second_operand_0d", ndim(b.shape) == 0, "precondition", node,
-                      note="only scalar (0-d) evaluation points are within the proof; array arguments: bounded check")
             ex.oblige(f"pre({site}).target_shape", args[0].term == sconcat(a.shape, b.shape), "precondition", node)
             fa, fb = _freeze(a), _freeze(b)
-            return Arr(args[0].term, lambda i: _num(fa(i)) * _num(fb(the_idx(b.shape))), "real", ex.ctx.const("dt_result", DT))
+            if simplify_bool(ndim(b.shape) == 0) is True or z3.eq(b.shape, shp0):
+                return Arr(args[0].term, lambda i: _num(fa(i)) * _num(fb(the_idx(b.shape))), "real", ex.ctx.const("dt_result", DT))
+            # numpy: outer(a, b) is the (a.size, b.size) matrix of all products in C order; reshaped to a.shape + b.shape its element
+            # at position (i ++ j) is a[i] * b[j]
+            sa, sb = a.shape, b.shape
+            return Arr(args[0].term, lambda p: _num(fa(ileft(p, sa, sb))) * _num(fb(iright(p, sa, sb))), "real", ex.ctx.const("dt_result", DT))
         raise U(f"outer product .{attr}", node)
 
 
